@@ -482,21 +482,34 @@ def thr_refill_runs(ctx, binp):
     return out
 
 
-def c17_runs(ctx, binp):
+def c17_runs(ctx, binp, throttled=False):
     """C17 end to end through runMain: a test recording requested in the middle of a motion recording (and one while
     idle) must give one extra file of 21 consecutive frames each and leave the motion and continuous files exactly as
     predicted (the three recorders are separate objects wired in handleConn)."""
     rng = ctx.sub_rng("fam_e2e.5")
     runs = []
-    for k in range(2 if ctx.tier == "quick" else 12):
+    nk = 2 if ctx.tier == "quick" else 12
+    for k in range(nk if throttled else nk + (1 if ctx.tier == "quick" else 3)):
         fps = rng.choice([2, 3])
         settings = dict(min=rng.choice([1, 2]), max=rng.choice([20, 30]), preview=1, const=(k % 2 == 0), throttle=False,
                         motion=dict(FIXED_MOTION, **{"trigger-frames": rng.choice([1, 2])}), device="dev", deviceid=7)
+        lowdisk = k >= nk
+        if throttled:
+            # the throttle as handleConn wires it, with a bucket that the run cannot drain (files as without it)
+            settings.update(throttle=True, bucket="10m", refill="24h")
+        if lowdisk:
+            # min-disk-space-mb far beyond what the disk has free: no motion recording may start (C04), but the gate
+            # belongs to motion recordings only - a requested test recording is still made, 21 frames
+            settings["mindisk"] = 10 ** 9
         w, h = 4, 3
         fsize = 640 + 2 * w * h
         trig = settings["motion"]["trigger-frames"]
         ev = [dict(ev="conn", N=settings["preview"] * fps + trig, TrigF=trig, MinF=settings["min"] * fps, MaxF=settings["max"] * fps,
                    ConstOn=settings["const"], firstid=1, newrun=True)]
+        if throttled:
+            ev[0]["ThrCap"], ev[0]["ThrMin"] = 600 * fps, (settings["min"] + settings["preview"]) * fps
+        elif lowdisk:
+            ev[0]["WinOpen"] = False
         payload, pace = bytearray(), []
         # the tail must hold the idle request (min-secs*fps + 6 frames after the motion ends) and its 21 frames
         n_idle, n_motion, n_tail = rng.randint(4, 8), rng.randint(34, 44), settings["min"] * fps + 6 + 21 + rng.randint(3, 9)
@@ -520,9 +533,13 @@ def c17_runs(ctx, binp):
         conn = dict(header=dict(ResX=w, ResY=h, FPS=fps, FrameSize=fsize, Model="lepton3", Brand="flir", CameraSerial=2, Firmware="1.0.0"),
                     payload=base64.b64encode(bytes(payload)).decode(), cuts=[], settle_ms=60, pace_at=pace, pace_ms=(1 if fast else 5),
                     dbus=[dict(at_byte=fsize * a, member="TakeTestRecording") for a in req_at])
+        # service calls that change no file keep arriving during the whole motion recording, each on its own goroutine
+        # as godbus dispatches them: every frame must still be processed (recordings exactly as predicted)
+        conn["dbus"] += [dict(at_byte=fsize * (n_idle + 1), member="TakeSnapshot", count=(400 if fast else 2000), parallel=4, gap_us=20, intarg=-1),
+                         dict(at_byte=fsize * (n_idle + 2), member="CameraInfo", count=(200 if fast else 1000), parallel=2, gap_us=30)]
         scen = dict(config=toml(settings), prefiles=[], conns=[conn])
         try:
-            evs = run_e2e(ctx, binp, scen, "c17_%d" % k)
+            evs = run_e2e(ctx, binp, scen, "c17%s_%d" % ("t" if throttled else "", k))
         except DaemonCrash as dc:
             runs.append(dict(kind="crash", settings=settings, fps=fps, model="lepton3", msg=dc.msg, result=dict(files=[], constant=[])))
             continue
